@@ -521,7 +521,7 @@ def dec_prog(src, fn_name, chk_fn, result_var):
         stmts = split_block(e[1:-1]) if e.startswith("{") else [e]
         if not stmts:
             raise Skip("%s: empty arm" % fn_name)
-        env, prog = {}, []          # name -> index of the bound value
+        env, prog, lets = {}, [], {}          # name -> index of the bound value; pure lets: name -> expression
 
         def bind(name):
             env[name] = len(env)
@@ -544,6 +544,8 @@ def dec_prog(src, fn_name, chk_fn, result_var):
                 v = mm.group(1) or mm.group(2) or mm.group(3)
                 if re.fullmatch(r"\d+", v):
                     return "DConst %s" % v
+                if v in lets:
+                    return lets[v]
                 if v in env:
                     return "DVar %d" % env[v]
             if t == "bytes.len()":
@@ -563,8 +565,12 @@ def dec_prog(src, fn_name, chk_fn, result_var):
                     a, b = t.split(op, 1)
                     if any(o in b for o in (" + ", " - ", " * ", " / ")):
                         raise Skip("%s: compound expression %s" % (fn_name, t))
-                    return "%s (%s) (%s)" % (ctor, atom(a), atom(b))
+                    return "%s (%s) (%s)" % (ctor, patom(a), patom(b))
             return atom(t)
+
+        def patom(t):
+            a = atom(t)
+            return a
 
         def cond(t):
             t = t.strip()
@@ -626,7 +632,7 @@ def dec_prog(src, fn_name, chk_fn, result_var):
                 prog.append(("DWords (%s)" if "u16" in mm.group(3) else "DBytes (%s)") % n); push(mm.group(2)); continue
             mm = re.fullmatch(r"let (\w+) = (.*);", st)
             if mm and "rdr" not in mm.group(2) and "bytes[" not in mm.group(2):
-                prog.append("DLet (%s)" % expr(mm.group(2))); push(mm.group(1)); continue
+                lets[mm.group(1)] = expr(mm.group(2)); continue          # a pure let is inlined where it is used
             raise Skip("%s: unrecognised statement in arm 0x%02X: %s" % (fn_name, key, st[:70]))
         # the variant built at the end
         last = stmts[-1]
